@@ -254,11 +254,7 @@ def run_file(ctx, fidx, n_plans, seed, lines, impl, cases):
                     rstate = "hang"
                 except Exception as e:
                     rstate = "raised:" + type(e).__name__
-                try:
-                    rt.steps = 0
-                    rt.settle()
-                except Exception:
-                    pass
+                C2.quiesce(rt, grid)
                 ctx.count("repair:" + rstate)
                 rcase = dict(case, via_verifycap=via_verifycap, verify=use_verify, repair=rstate)
                 post_files = sorted(g.share_files(si))
@@ -408,7 +404,7 @@ def run(ctx):
     else:
         run_functions(ctx)
         for i in range(ctx.budget(12, 64)):
-            run_file(ctx, i, ctx.budget(36, 80), ctx.rng.randrange(1 << 30), lines, impl, cases)
+            run_file(ctx, i, ctx.budget(30, 80), ctx.rng.randrange(1 << 30), lines, impl, cases)
     outs = ctx.model(lines)
     ctx.compare("per-share verdict of check(verify=True) vs the Lean verifier on the same share bytes", cases, impl, outs)
     if cases:
